@@ -47,8 +47,11 @@ def stream(file=sys.stdout):
             file.write('\n')
             # nothing stays buffered: an abandoned run must not write into the file of a retry later on
             file.flush()
-        file.close()
         if filename:
+            file.close()
             os.rename(filename, filename[:-len(ACTIVE_SUFFIX)])
+        else:
+            # a file object handed in by the caller (sys.stdout by default) stays open
+            file.flush()
 
     return func
